@@ -2,6 +2,7 @@ package interp
 
 import (
 	"go/types"
+	"strings"
 )
 
 func init() {
@@ -70,6 +71,24 @@ func init() {
 			return iface{t: f.Type(), v: v}
 		}
 		return iface{} // no such field
+	})
+	// IsInputPos(p): p is a position variable created for a field of the lazy
+	// input (a token start by construction), not a computed value.
+	reg(rtPkg+".IsInputPos", func(fr *frame, args []value) value {
+		v := args[0]
+		if it, ok := v.(iface); ok {
+			v = it.v
+		}
+		s, ok := v.(sym)
+		if !ok {
+			// a concrete position cannot come from the symbolic input
+			return false
+		}
+		t := s.t
+		if len(t.vars) == 1 && t.s == quoteName(t.vars[0]) && !strings.Contains(t.vars[0], "#End") {
+			return true
+		}
+		return false
 	})
 	reg(rtPkg+".TypeName", func(fr *frame, args []value) value {
 		it := fr.i.asIface(args[0])
